@@ -28,7 +28,8 @@ TRUSTED_BASE = [
     "hand-written model GraphiqModel/Model/{Gauss,DMSem,Noise}.lean tied to compiler_base.py, noise_models.py, stabilizer/state.py, "
     "density_matrix/{state,functions,compiler}.py, stabilizer/compiler.py by this correspondence run",
     "Model/Tableau.lean (C07) for the per-branch tableau operations",
-    "tensor-product lifting: rho(P·T) = P rho(T) P† for Pauli P (clause (c) for all n is checked by the driver per input, n<=4, not proved)",
+    "clause (c) (DM = sum_k p_k rho(T_k), measurement-free circuits, all n) is proved about the exact models (Properties/C06.lean: "
+    "dm_equals_mixture); the driver's per-input evaluation of both sides (n<=4) now only tests the compiled definitions against numpy",
     "positivity of the *floating-point* matrix is checked by the oracle (min eigenvalue >= -1e-9), not proved",
     "harness, line protocol, logging noise wrappers, numpy reference converter",
 ]
